@@ -182,6 +182,8 @@ EXTRA = {
         "set loop handed in as a parameter, build the model's eamBuild for EVERY permutation the hash seed can produce.",
  "C08": " C08_code_builder_tuple/_chain/_ranges/_pair_builder: Potential_Form_Builder and the pair builder regenerated from the source (while-walk along .next, registry look-ups, except clauses) "
         "hand the multi-range callable one range per range of the definition, in order, with its own start and marker.",
+ "C10": " C10_code_spline_modifier / _spline_order: the glue of the spline() modifier regenerated from the source takes the start potential from the first part, the end potential from the third, "
+        "detach and attach points from the second and third parts' starts, refuses everything else, and remembers nothing between calls.",
  "C09": " C09_code_modifier_reduce/_sum_product_pow/_sum_value/_product_value: the reducing modifiers of _modifiers.py, regenerated from the source, fold plus/product/pow from the "
         "left over the callables of all their arguments; C09_code_register_with_each_other/_every_form_sees_every_other: the registry registers every form with every other, both ways.",
  "C07": " C07_pow_d1_zero_base/_d2_zero_base: the guards of pow.deriv / pow.deriv2 (vanishing base, constant whole exponent), regenerated from the source, return the derivatives.",
